@@ -1,6 +1,6 @@
 CONSTANTS
   ItemFirst = TRUE
-  LocAfterValue = TRUE
+  LocAfterValue = FALSE
 SPECIFICATION Spec
 INVARIANTS CopyKeepsItem SizeIsReal NeverLost LoadsSeeWrittenBytes
 CHECK_DEADLOCK FALSE
